@@ -1270,6 +1270,18 @@ impl Channel {
             return Ok((holder_commitment_point, None));
         }
 
+        // policy-revoke-not-closed
+        // Once a holder or closing signature has been released, advancing would
+        // disclose the revocation secret of a commitment we may have signed.
+        if self.enforcement_state.channel_closed {
+            policy_err!(
+                validator,
+                "policy-revoke-not-closed",
+                "cannot revoke holder commitment {} after the channel was closed",
+                new_current_commitment_number,
+            );
+        }
+
         // checked above
         let (info2, sigs) = self.enforcement_state.next_holder_commit_info.take().unwrap();
         let incoming_payment_summary =
